@@ -1196,3 +1196,284 @@ Proof. eexists. reflexivity. Qed.
 Example fixed_F15k : (exists v, lex_str (site_tag_doc q3 ++ []) = Some (v, [])) /\
   (exists v, lex_str (site_block_line w_bsx ++ []) = Some (v, [])).
 Proof. split; eexists; reflexivity. Qed.
+
+(* ================================================================== value-carrying docstring theorems
+   (texts without a carriage return: a raw CR inside a literal reads as LF, so the value is then only equal up to that
+   translation; the docstring layout of DocumentationWriter never contains a CR) *)
+Definition nocr (s : str) : bool := forallb (fun c => negb (c =? 13)) s.
+Lemma close_q3 : forall rest, lex_go true Nrm (q3 ++ rest) = Some ([], rest).
+Proof. intro rest. reflexivity. Qed.
+
+Fixpoint unpair (u : str) : str :=
+  match u with
+  | [] => []
+  | c :: r => if c =? 92 then match r with _ :: r' => 92 :: unpair r' | [] => [92] end else c :: unpair r
+  end.
+
+Lemma unpair_dbl_bs : forall w, unpair (dbl_bs w) = w.
+Proof.
+  induction w as [|c w IH]; [reflexivity|]. unfold dbl_bs. cbn [flat_map]. fold (dbl_bs w).
+  destruct (c =? 92) eqn:E.
+  - apply N.eqb_eq in E. subst c. cbn [app unpair]. change (92 =? 92) with true. cbv iota. rewrite IH. reflexivity.
+  - cbn [app unpair]. rewrite E. rewrite IH. reflexivity.
+Qed.
+
+Lemma unpair_app_sep : forall n u sep, (length u <= n)%nat -> paired u = true -> (sep =? 92) = false ->
+  unpair (u ++ [sep]) = unpair u ++ [sep].
+Proof.
+  induction n as [|n IH]; intros u sep Hlen Hp Hs.
+  - destruct u; [|cbn in Hlen; lia]. cbn. rewrite Hs. reflexivity.
+  - destruct u as [|a r]; [cbn; rewrite Hs; reflexivity|].
+    cbn [app unpair paired] in *. destruct (a =? 92).
+    + destruct r as [|d r']; [discriminate|]. cbn [app]. apply andb_true_iff in Hp. destruct Hp as [_ Hp].
+      cbn [app]. f_equal. apply IH; [cbn in *; lia | exact Hp | exact Hs].
+    + cbn [app]. f_equal. apply IH; [cbn in *; lia | exact Hp | exact Hs].
+Qed.
+
+Lemma plain_tq_of : forall c, docplain c = true -> (c =? 13) = false -> plain true c = true.
+Proof.
+  intros c H E. unfold docplain in H. unfold plain. rewrite E. cbn [negb andb].
+  apply negb_true_iff in H. apply orb_false_iff in H. destruct H as [H1 H3]. apply orb_false_iff in H1. destruct H1 as [H1 H2].
+  rewrite H1, H2, H3. reflexivity.
+Qed.
+
+Lemma step_lone_quote_nrm : forall r,
+  match r with a :: b :: _ => (a =? 34) && (b =? 34) = false | _ => True end ->
+  lex_go true Nrm (34 :: r) = consf 34 (lex_go true Nrm r).
+Proof. intros r H. apply step_lone_quote; [left; reflexivity | exact H]. Qed.
+
+Lemma run_isoq_val : forall s X, isoq s = true -> nocr s = true ->
+  lex_go true Nrm (s ++ X) = prepend s (lex_go true Nrm X).
+Proof.
+  induction s as [|c s IH]; intros X Hs Hc; [rewrite prepend_nil; reflexivity|].
+  cbn [isoq] in Hs. apply andb_true_iff in Hs. destruct Hs as [H1 Hs].
+  unfold nocr in Hc. cbn [forallb] in Hc. apply andb_true_iff in Hc. destruct Hc as [Hc13 Hc]. apply negb_true_iff in Hc13.
+  cbn [app]. rewrite prepend_cons. destruct (c =? 34) eqn:E34.
+  - apply N.eqb_eq in E34. subst c. destruct s as [|d s']; [discriminate|].
+    rewrite step_lone_quote_nrm.
+    + rewrite (IH X Hs Hc). reflexivity.
+    + cbn [app]. apply negb_true_iff in H1. destruct (s' ++ X); [exact I|]. rewrite H1. reflexivity.
+  - rewrite step_plain.
+    + rewrite (IH X Hs Hc). reflexivity.
+    + apply plain_tq_of; [|exact Hc13]. unfold docplain. rewrite E34. exact H1.
+Qed.
+
+Lemma alias_run_val : forall n u X, (length u <= n)%nat ->
+  paired u = true -> no_chars bad_raw u = true -> nocr u = true -> last_nq u = true ->
+  lex_go true Nrm (repl3 esc_q3 u ++ X) = prepend (unpair u) (lex_go true Nrm X).
+Proof.
+  induction n as [|n IH]; intros u X Hlen Hp Hb Hc Hl.
+  - destruct u; [|cbn in Hlen; lia]. cbn. rewrite prepend_nil. reflexivity.
+  - destruct u as [|c1 r1]; [cbn; rewrite prepend_nil; reflexivity|].
+    unfold no_chars in Hb. cbn [forallb] in Hb. apply andb_true_iff in Hb. destruct Hb as [Hb1 Hb].
+    unfold nocr in Hc. cbn [forallb] in Hc. apply andb_true_iff in Hc. destruct Hc as [Hc1 Hc]. apply negb_true_iff in Hc1.
+    cbn [length] in Hlen.
+    destruct (c1 =? 34) eqn:E1.
+    + apply N.eqb_eq in E1. subst c1.
+      destruct r1 as [|c2 r2]; [discriminate|].
+      cbn [paired] in Hp. change (34 =? 92) with false in Hp. cbv iota in Hp.
+      cbn [unpair]. change (34 =? 92) with false. cbv iota. rewrite prepend_cons.
+      destruct (c2 =? 34) eqn:E2.
+      * apply N.eqb_eq in E2. subst c2.
+        destruct r2 as [|c3 r3]; [discriminate|].
+        cbn [paired] in Hp. change (34 =? 92) with false in Hp. cbv iota in Hp.
+        cbn [forallb] in Hb. apply andb_true_iff in Hb. destruct Hb as [_ Hb].
+        cbn [forallb] in Hc. apply andb_true_iff in Hc. destruct Hc as [_ Hc].
+        cbn [unpair]. change (34 =? 92) with false. cbv iota. rewrite prepend_cons.
+        destruct (c3 =? 34) eqn:E3.
+        -- apply N.eqb_eq in E3. subst c3.
+           cbn [paired] in Hp. change (34 =? 92) with false in Hp. cbv iota in Hp.
+           cbn [forallb] in Hb. apply andb_true_iff in Hb. destruct Hb as [_ Hb].
+           cbn [forallb] in Hc. apply andb_true_iff in Hc. destruct Hc as [_ Hc].
+           assert (R : repl3 esc_q3 (34 :: 34 :: 34 :: r3) = esc_q3 ++ repl3 esc_q3 r3) by reflexivity.
+           rewrite R.
+           replace ((esc_q3 ++ repl3 esc_q3 r3) ++ X) with (92 :: 34 :: 92 :: 34 :: 92 :: 34 :: (repl3 esc_q3 r3 ++ X)) by reflexivity.
+           assert (Hgo : forall Y, lex_go true Nrm (92 :: 34 :: Y) = consf 34 (lex_go true Nrm Y)).
+           { intro Y. rewrite step_bs. apply step_esc_simple. reflexivity. }
+           rewrite !Hgo. cbn [unpair]. change (34 =? 92) with false. cbv iota. rewrite prepend_cons.
+           rewrite (IH r3 X); try assumption; [reflexivity | cbn in Hlen; lia |].
+           destruct r3; [discriminate | exact Hl].
+        -- rewrite (repl3_qq_nq _ c3 r3 E3). rewrite (repl3_nonquote _ c3 r3 E3). cbn [app].
+           rewrite step_lone_quote_nrm by (rewrite E3; rewrite andb_false_r; reflexivity).
+           rewrite step_lone_quote_nrm by (destruct (repl3 esc_q3 r3 ++ X); [exact I | rewrite E3; reflexivity]).
+           change (c3 :: repl3 esc_q3 r3 ++ X) with ((c3 :: repl3 esc_q3 r3) ++ X).
+           rewrite <- (repl3_nonquote _ c3 r3 E3).
+           rewrite (IH (c3 :: r3) X); [reflexivity | cbn in Hlen; cbn; lia | exact Hp | exact Hb | exact Hc | exact Hl].
+      * rewrite (repl3_q_nq _ c2 r2 E2). rewrite (repl3_nonquote _ c2 r2 E2). cbn [app].
+        rewrite step_lone_quote_nrm by (destruct (repl3 esc_q3 r2 ++ X); [exact I | rewrite E2; reflexivity]).
+        change (c2 :: repl3 esc_q3 r2 ++ X) with ((c2 :: repl3 esc_q3 r2) ++ X).
+        rewrite <- (repl3_nonquote _ c2 r2 E2).
+        rewrite (IH (c2 :: r2) X); [reflexivity | lia | exact Hp | exact Hb | exact Hc | exact Hl].
+    + rewrite (repl3_nonquote _ c1 r1 E1). cbn [app].
+      destruct (c1 =? 92) eqn:E92.
+      * apply N.eqb_eq in E92. subst c1. cbn [paired] in Hp. change (92 =? 92) with true in Hp. cbv iota in Hp.
+        destruct r1 as [|d r1']; [discriminate|]. apply andb_true_iff in Hp. destruct Hp as [Ed Hp].
+        apply N.eqb_eq in Ed. subst d.
+        rewrite (repl3_nonquote _ 92 r1' eq_refl). cbn [app].
+        cbn [forallb] in Hb. apply andb_true_iff in Hb. destruct Hb as [_ Hb].
+        cbn [forallb] in Hc. apply andb_true_iff in Hc. destruct Hc as [_ Hc].
+        rewrite step_bs. rewrite (step_esc_simple true 92 92) by reflexivity.
+        cbn [unpair]. change (92 =? 92) with true. cbv iota. rewrite prepend_cons.
+        rewrite (IH r1' X); try assumption; [reflexivity | cbn in Hlen; lia |].
+        destruct r1'; [reflexivity | exact Hl].
+      * cbn [unpair]. rewrite E92. rewrite prepend_cons. rewrite step_plain.
+        -- rewrite (IH r1 X); try assumption; [reflexivity | lia | |].
+           ++ cbn [paired] in Hp. rewrite E92 in Hp. exact Hp.
+           ++ destruct r1; [reflexivity | exact Hl].
+        -- apply plain_tq_of; [|exact Hc1]. unfold docplain. rewrite E1, E92. exact Hb1.
+Qed.
+
+Lemma nocr_map_flat : forall t, nocr t = true -> nocr (dbl_bs (nul_sp t)) = true.
+Proof.
+  induction t as [|c t IH]; intro H; [reflexivity|]. unfold nocr in *. cbn [forallb] in H. apply andb_true_iff in H.
+  destruct H as [Hc Ht]. unfold nul_sp. cbn [map]. unfold dbl_bs. cbn [flat_map]. rewrite forallb_app.
+  fold (nul_sp t). fold (dbl_bs (nul_sp t)). rewrite (IH Ht), andb_true_r.
+  destruct (c =? 0) eqn:E0; [reflexivity|]. destruct (c =? 92) eqn:E92; cbn [forallb].
+  - apply N.eqb_eq in E92. subst c. reflexivity.
+  - rewrite Hc. reflexivity.
+Qed.
+
+(* the escaped text, followed by a character that is not quote / backslash / CR, evaluates to the text (NUL -> space) *)
+Lemma doc_text_val : forall t sep X, scalar t = true -> nocr t = true -> sep_ok sep = true -> (sep =? 13) = false ->
+  lex_go true Nrm (doc_esc t ++ sep :: X) = prepend (nul_sp t ++ [sep]) (lex_go true Nrm X).
+Proof.
+  intros t sep X Ht Hcr Hsep H13. unfold sep_ok in Hsep. apply negb_true_iff in Hsep.
+  apply orb_false_iff in Hsep. destruct Hsep as [Hs1 Hbad]. apply orb_false_iff in Hs1. destruct Hs1 as [H34 H92].
+  set (u := dbl_bs (nul_sp t)).
+  assert (Hu : unpair (u ++ [sep]) = nul_sp t ++ [sep]).
+  { rewrite (unpair_app_sep (length u)); [unfold u; rewrite unpair_dbl_bs; reflexivity | lia | apply paired_dbl_bs | exact H92]. }
+  rewrite <- Hu.
+  replace (doc_esc t ++ sep :: X) with (repl3 esc_q3 (u ++ [sep]) ++ X).
+  - apply (alias_run_val (length (u ++ [sep]))); [lia | | | |].
+    + apply (paired_app_sep (length u)); [lia | apply paired_dbl_bs | exact H92].
+    + unfold no_chars. rewrite forallb_app. fold (no_chars bad_raw u). unfold u.
+      rewrite (nobad_dbl_bs _ (scalar_nobad_nul_sp t Ht)). cbn [forallb]. rewrite Hbad. reflexivity.
+    + unfold nocr. rewrite forallb_app. fold (nocr u). unfold u. rewrite (nocr_map_flat t Hcr). cbn [forallb]. rewrite H13. reflexivity.
+    + rewrite last_nq_app_sep. rewrite H34. reflexivity.
+  - rewrite (repl3_app_sep _ (length u)) by (try lia; exact H34). rewrite <- app_assoc. reflexivity.
+Qed.
+
+Lemma run_docplain_val : forall s X, safe_doc_raw s = true -> nocr s = true ->
+  lex_go true Nrm (s ++ X) = prepend s (lex_go true Nrm X).
+Proof.
+  intros s X Hs Hc. apply run_plain. unfold safe_doc_raw, no_chars in Hs. unfold nocr in Hc.
+  rewrite forallb_forall in *. intros c Hin. apply plain_tq_of; [exact (Hs c Hin)|].
+  apply negb_true_iff. exact (Hc c Hin).
+Qed.
+
+(* a hand-written docstring template evaluates to: fixed text, the spec text (NUL -> space), fixed text *)
+Theorem block_doc_value : forall pre sep post t rest,
+  safe_doc_raw pre = true -> nocr pre = true -> scalar t = true -> nocr t = true ->
+  sep_ok sep = true -> (sep =? 13) = false -> isoq post = true -> nocr post = true ->
+  lex_str (site_block_doc pre (sep :: post) t ++ rest) = Some (pre ++ nul_sp t ++ sep :: post, rest).
+Proof.
+  intros pre sep post t rest Hp Hpc Ht Htc Hs Hs13 Hpost Hpostc.
+  unfold site_block_doc. rewrite <- !app_assoc. rewrite lex_str_q3.
+  rewrite run_docplain_val by assumption. cbn [app].
+  rewrite doc_text_val by assumption. rewrite run_isoq_val by assumption.
+  rewrite close_q3. cbn [prepend]. rewrite !app_nil_r.
+  rewrite <- !app_assoc. reflexivity.
+Qed.
+
+(* DocumentationWriter: the docstring evaluates to a layout of the text (white space edited only) *)
+Lemma layout_pres : forall (P : N -> bool) o t, (forall c, out_ws c = true -> P c = true) ->
+  forallb P t = true -> layoutb t o = true -> forallb P o = true.
+Proof.
+  intros P. induction o as [|c o IH]; intros t Hws Ht HL; [reflexivity|]. cbn [layoutb] in HL. cbn [forallb].
+  destruct (out_ws c) eqn:Ew.
+  - rewrite (Hws c Ew). apply (IH (drop_ws t)); [exact Hws | apply drop_ws_P; exact Ht | exact HL].
+  - pose proof (drop_ws_P P t Ht) as Hd.
+    destruct (drop_ws t) as [|c' t']; [discriminate|]. apply andb_true_iff in HL. destruct HL as [Hc HL].
+    apply N.eqb_eq in Hc. subst c'. cbn [forallb] in Hd. apply andb_true_iff in Hd. destruct Hd as [Hc Hd].
+    rewrite Hc. apply (IH t'); assumption.
+Qed.
+Lemma drop_ws_head : forall t c r, drop_ws t = c :: r -> doc_ws c = false.
+Proof.
+  induction t as [|a t IH]; intros c r H; [discriminate|]. cbn [drop_ws] in H.
+  destruct (doc_ws a) eqn:E; [apply (IH c r H)|]. inversion H; subst. exact E.
+Qed.
+Lemma layout_nocr : forall o t, layoutb t o = true -> nocr o = true.
+Proof.
+  induction o as [|c o IH]; intros t HL; [reflexivity|]. cbn [layoutb] in HL. unfold nocr. cbn [forallb].
+  destruct (out_ws c) eqn:Ew.
+  - assert ((c =? 13) = false).
+    { unfold out_ws in Ew. apply orb_true_iff in Ew. destruct Ew as [Ew|Ew]; [apply orb_true_iff in Ew; destruct Ew as [Ew|Ew]|];
+        apply N.eqb_eq in Ew; subst c; reflexivity. }
+    rewrite H. apply (IH (drop_ws t)). exact HL.
+  - destruct (drop_ws t) as [|c' t'] eqn:Ed; [discriminate|]. apply andb_true_iff in HL. destruct HL as [Hc HL].
+    apply N.eqb_eq in Hc. subst c'. pose proof (drop_ws_head t c t' Ed) as Hw.
+    assert ((c =? 13) = false).
+    { destruct (c =? 13) eqn:E; [|reflexivity]. apply N.eqb_eq in E. subst c. discriminate. }
+    rewrite H. apply (IH t'). exact HL.
+Qed.
+
+Theorem docwriter_value : forall t out rest, scalar t = true -> site_docwriter_rel t out = true ->
+  exists o, layoutb (nul_sp t) o = true /\ lex_str (out ++ rest) = Some (o, rest).
+Proof.
+  intros t out rest Ht HR. unfold site_docwriter_rel in HR.
+  destruct out as [|a [|b [|c e3]]]; try discriminate.
+  destruct (rev e3) as [|z [|y [|x re]]] eqn:Er; try (rewrite !andb_false_r in HR; discriminate).
+  repeat match goal with E : _ && _ = true |- _ => apply andb_true_iff in E; destruct E end.
+  repeat match goal with E : (_ =? _) = true |- _ => apply N.eqb_eq in E end. subst.
+  match goal with E : str_eqb _ _ = true |- _ => apply str_eqb_eq in E; rename E into He end.
+  apply (f_equal (@rev N)) in Er. rewrite rev_involutive in Er. cbn [rev] in Er. rewrite <- !app_assoc in Er. cbn [app] in Er.
+  set (o := doc_unesc (rev re)) in *.
+  match goal with E : ends_lf o = true |- _ => destruct (ends_lf_split o E) as [o' Ho'] end.
+  match goal with E : layoutb _ o = true |- _ => rename E into HL end.
+  pose proof (layout_scalar o _ (scalar_nul_sp t Ht) HL) as Hso.
+  pose proof (layout_nocr o _ HL) as Hcr.
+  exists o. split; [exact HL|].
+  rewrite Er. rewrite <- He. rewrite Ho'. rewrite doc_esc_app_lf.
+  change (34 :: 34 :: 34 :: (doc_esc o' ++ [10]) ++ [34; 34; 34]) with (q3 ++ (doc_esc o' ++ [10]) ++ q3).
+  rewrite <- !app_assoc. rewrite lex_str_q3. cbn [app].
+  rewrite Ho' in Hso, Hcr. rewrite forallb_app in Hso. apply andb_true_iff in Hso. destruct Hso as [Hso' _].
+  unfold nocr in Hcr. rewrite forallb_app in Hcr. apply andb_true_iff in Hcr. destruct Hcr as [Hcr' _].
+  rewrite doc_text_val; [| exact Hso' | exact Hcr' | reflexivity | reflexivity].
+  rewrite close_q3. cbn [prepend]. rewrite app_nil_r.
+  (* o' has no NUL: it is a layout of nul_sp t *)
+  assert (Hz : forallb (fun c => negb (c =? 0)) o = true).
+  { apply (layout_pres (fun c => negb (c =? 0)) o (nul_sp t)); [| | exact HL].
+    - intros c0 Hw. unfold out_ws in Hw. apply orb_true_iff in Hw. destruct Hw as [Hw|Hw]; [apply orb_true_iff in Hw; destruct Hw as [Hw|Hw]|];
+        apply N.eqb_eq in Hw; subst c0; reflexivity.
+    - unfold nul_sp. rewrite forallb_forall. intros c0 Hc0. apply in_map_iff in Hc0. destruct Hc0 as [d [Hd _]].
+      destruct (d =? 0) eqn:E; subst c0; [reflexivity | rewrite E; reflexivity]. }
+  rewrite Ho' in Hz. rewrite forallb_app in Hz. apply andb_true_iff in Hz. destruct Hz as [Hz' _].
+  assert (Hn : nul_sp o' = o').
+  { clear - Hz'. induction o' as [|c0 o0 IH]; [reflexivity|]. cbn [forallb] in Hz'. apply andb_true_iff in Hz'.
+    destruct Hz' as [Hc0 Ho0]. apply negb_true_iff in Hc0. unfold nul_sp. cbn [map]. rewrite Hc0. fold (nul_sp o0).
+    rewrite (IH Ho0). reflexivity. }
+  rewrite Hn. reflexivity.
+Qed.
+
+(* alias docstring: evaluates to the fixed prefix and the text (NUL -> space) *)
+Lemma alias_esc_val : forall t X, scalar t = true -> nocr t = true ->
+  lex_go true Nrm (alias_esc t ++ X) = prepend (nul_sp t) (lex_go true Nrm X).
+Proof.
+  induction t as [|c t IH]; intros X Ht Hc; [rewrite prepend_nil; reflexivity|].
+  unfold scalar in Ht. cbn [forallb] in Ht. apply andb_true_iff in Ht. destruct Ht as [Hsc Ht].
+  unfold nocr in Hc. cbn [forallb] in Hc. apply andb_true_iff in Hc. destruct Hc as [Hc13 Hc]. apply negb_true_iff in Hc13.
+  unfold alias_esc. cbn [flat_map]. rewrite <- app_assoc. fold (alias_esc t).
+  unfold nul_sp. cbn [map]. fold (nul_sp t). rewrite prepend_cons. unfold alias_esc1.
+  destruct (c =? 0) eqn:E0.
+  - cbn [app]. rewrite step_plain by reflexivity. rewrite (IH X Ht Hc). reflexivity.
+  - destruct (c =? 92) eqn:E92.
+    { apply N.eqb_eq in E92. subst c. cbn [app]. rewrite step_bs. rewrite (step_esc_simple true 92 92) by reflexivity.
+      rewrite (IH X Ht Hc). reflexivity. }
+    destruct (c =? 34) eqn:E34.
+    { apply N.eqb_eq in E34. subst c. cbn [app]. rewrite step_bs. rewrite (step_esc_simple true 34 34) by reflexivity.
+      rewrite (IH X Ht Hc). reflexivity. }
+    cbn [app]. rewrite step_plain.
+    + rewrite (IH X Ht Hc). reflexivity.
+    + apply plain_tq_of; [|exact Hc13]. unfold docplain, bad_raw. rewrite E34, E92, E0.
+      unfold scalar_c in Hsc. apply andb_true_iff in Hsc. destruct Hsc as [Hs Hm]. apply negb_true_iff in Hs. rewrite Hs.
+      apply N.leb_le in Hm. replace (1114111 <? c) with false by (symmetry; apply N.ltb_ge; lia). reflexivity.
+Qed.
+
+Theorem alias_doc_value : forall t rest, t <> [] -> scalar t = true -> nocr t = true ->
+  lex_str (site_alias_doc t ++ rest) = Some (s_alias_for ++ nul_sp t, rest).
+Proof.
+  intros t rest Hne Ht Hc. destruct t as [|c t]; [contradiction|].
+  unfold site_alias_doc. rewrite <- !app_assoc. rewrite lex_str_q3.
+  rewrite run_docplain_val by reflexivity. rewrite alias_esc_val by assumption.
+  rewrite close_q3. cbn [prepend]. rewrite !app_nil_r. reflexivity.
+Qed.
